@@ -467,12 +467,19 @@ pub fn parse_set_iterator_list(
         .collect::<Result<Vec<IterableSet>, CompilationError>>()
 }
 
+/// The first direct child tagged `tag`. `find_first_tagged` also searches the children of the
+/// children, in source order: a block nested in an earlier child (the `{ .. }` of a range end
+/// such as `0..max{2, 3}`) would answer for its parent.
+fn first_child_tagged<'a>(pairs: &Pairs<'a, Rule>, tag: &str) -> Option<Pair<'a, Rule>> {
+    pairs.clone().find(|pair| pair.as_node_tag() == Some(tag))
+}
+
 pub fn parse_block_scoped_function(exp: &Pair<Rule>) -> Result<PreExp, CompilationError> {
     let span = InputSpan::from_pair(exp);
     let inner = exp.clone().into_inner();
-    let name = inner.find_first_tagged("name");
-    let body = inner.find_first_tagged("body");
-    let iters = inner.find_first_tagged("range");
+    let name = first_child_tagged(&inner, "name");
+    let body = first_child_tagged(&inner, "body");
+    let iters = first_child_tagged(&inner, "range");
     if name.is_none() || iters.is_none() || body.is_none() {
         return err_unexpected_token!("found {}, expected scoped block function", exp);
     }
@@ -720,9 +727,9 @@ pub fn parse_iterator(iterator: &Pair<Rule>) -> Result<PreExp, CompilationError>
     match iterator.as_rule() {
         Rule::iterator => {
             let inner = iterator.clone().into_inner();
-            let from = inner.find_first_tagged("from").map(parse_parameter);
-            let to = inner.find_first_tagged("to").map(parse_parameter);
-            let range_type = inner.find_first_tagged("range_type");
+            let from = first_child_tagged(&inner, "from").map(parse_parameter);
+            let to = first_child_tagged(&inner, "to").map(parse_parameter);
+            let range_type = first_child_tagged(&inner, "range_type");
             match (from, to, range_type) {
                 (Some(from), Some(to), Some(range_type)) => {
                     let to_inclusive = match range_type.as_str() {
